@@ -1,13 +1,17 @@
 import UralModel.Py.PctCodec
 import UralModel.Py.UrlSplit
 import UralModel.Model.Protocol
+import UralModel.Gen.RedirectRe
 /-!
 # Model of `ural/infer_redirection.py`
 
-The two regexes are matched by hand-written functions with the leftmost / ordered-choice
-semantics of `re.search` / `re.split` spelled out; the pattern strings they were written
-for are kept below and compared with the regenerated ones by table obligations
-(`Ural.Props.C15.redirect_patterns_unchanged`).  Both are compiled with `re.I`.
+Both regexes are compiled with `re.I` and, once their fixed frame is removed, denote finite
+sets of literals.  The translator expands them on every run (with CPython's own regex
+parser) into `Gen.redirectKeys` and `Gen.cacheHosts`, **in the order the backtracking engine
+tries the alternatives**; the hand-written matchers below are parametric in these two lists
+and spell out the leftmost / ordered-choice semantics of `re.search` / `re.split`.  Table
+obligations (`Ural.Props.C15.redirect_patterns_shape`) pin the frame
+`(?:^|[?&])(` keys `)=([^&]+)`, the flags, and the alphabet of the literals.
 
 `target`/`inferTarget` is the value of the Python variable `target` at line 89 (`None` ↦
 `none`; the two early `return url` — the `q` special case and the `ValueError` of `urljoin`
@@ -19,13 +23,9 @@ the guard `len(target) < len(url)`), which is what makes the definition well-fou
 namespace Ural
 open Ural.Py
 
-/-- `OBVIOUS_REDIRECTS_RE.pattern` the hand matcher `redirectSearch` was written for -/
-def obviousRedirectsPatternModelled : String :=
-  "(?:^|[?&])((?:redirect(?:_to)?|target|redir|next|link|orig|goto|url|[luq]))=([^&]+)"
-
-/-- `REDIRECTION_DOMAINS_RE.pattern` the hand matcher `domainSplit` was written for -/
-def redirectionDomainsPatternModelled : String :=
-  "(?:\\.ampproject\\.org/[cv]/(?:s/)?|bc\\.marfeelcache\\.com/amp/|bc\\.marfeel\\.com/)"
+/-- the fixed frame of `OBVIOUS_REDIRECTS_RE` around the key alternation -/
+def obviousRedirectsPrefix : String := "(?:^|[?&])("
+def obviousRedirectsSuffix : String := ")=([^&]+)"
 
 /-! ## literal matching under `re.IGNORECASE` -/
 
@@ -47,21 +47,11 @@ def matchLit : List Char → Str → Option Str
 
 /-! ## `REDIRECTION_DOMAINS_RE.split(url, 1)` -/
 
-/-- `\.ampproject\.org/[cv]/(?:s/)?` at the head of `s` -/
-def ampHere (s : Str) : Option Str :=
-  match matchLit ".ampproject.org/".toList s with
-  | some (c :: r) =>
-    if ciMatch 'c' c || ciMatch 'v' c then
-      match matchLit ['/'] r with
-      | some r' => some ((matchLit "s/".toList r').getD r')
-      | none => none
-    else none
-  | _ => none
-
-/-- the three alternatives, in order, at the head of `s`: what follows the match -/
+/-- the alternatives of `REDIRECTION_DOMAINS_RE` (expanded, in priority order) at the head
+of `s`: what follows the match.  Nothing follows the alternation in the pattern, so the
+first alternative that matches is the one the engine reports. -/
 def domainHere (s : Str) : Option Str :=
-  (ampHere s).or ((matchLit "bc.marfeelcache.com/amp/".toList s).or
-    (matchLit "bc.marfeel.com/".toList s))
+  Gen.cacheHosts.findSome? (fun h => matchLit h.toList s)
 
 /-- `REDIRECTION_DOMAINS_RE.split(url, 1)`: `none` when the list has one element (no match),
 else `some redirection_split[1]`, what follows the leftmost match -/
@@ -74,9 +64,8 @@ def domainSplit : Str → Option Str
 
 /-! ## `re.search(OBVIOUS_REDIRECTS_RE, url)` -/
 
-/-- the alternatives of group 1, in the order the regex tries them -/
-def redirectKeys : List String :=
-  ["redirect_to", "redirect", "target", "redir", "next", "link", "orig", "goto", "url", "l", "u", "q"]
+/-- the alternatives of group 1, in the order the regex tries them (regenerated) -/
+def redirectKeys : List String := Gen.redirectKeys
 
 /-- `(key)=([^&]+)` for one key at the head of `s`: `(group 1, group 2)` -/
 def keyValueFor (key : List Char) (s : Str) : Option (Str × Str) :=
